@@ -299,6 +299,13 @@ def _add(bundle: Bundle, val: BundleAttr) -> BundleAttr:
         msg = f"Invalid Bundle attribute {val} for {bundle}"
         raise TypeError(msg)
 
+    # A name denotes a single attribute. If `val.name` is currently held by the *other*
+    # type-based container, that attribute is being replaced: remove it there and from the namespace.
+    for ctr in (bundle.signals, bundle.bundles):
+        if ctr is not type_ctr and val.name in ctr:
+            del ctr[val.name]
+            bundle.namespace.pop(val.name, None)
+
     # Add it to the bundle namespace, and the type-specific container
     type_ctr[val.name] = val
     bundle.namespace[val.name] = val
